@@ -109,7 +109,8 @@ inductive Tok where
 
 def parseTokFlat (s : String) : Option Tok :=
   if s == "ok" then some .ok else if s == "okse" then some .okse else if s == "data" then some .data
-  else if s == "cmt" then some .cmt else if s == "junk" then some .junk
+  else if s == "cmt" then some .cmt  else if s == "junk" then some .junk
+  else if s.startsWith "junk." then some .junk
   else if s.startsWith "e:" then
     let t := (s.drop 2).toString
     match t.splitOn "/" with
